@@ -601,6 +601,9 @@ def make_numpy(interp):
         return A.fresh_array("arange", (n,), lambda idx: binop("+", start, idx[0]), kind="int")
 
     def np_isclose(a, b, *args, **kw):
+        if is_scalar(a) and is_scalar(b) and not isinstance(a, NDArr) and not isinstance(b, NDArr):
+            # closeness within floating-point tolerances has no counterpart over the reals: arbitrary outcome
+            return z3.Bool(A.fresh_name("np.isclose"))
         return Opaque("np.isclose")
 
     def np_isscalar(x):
